@@ -32,6 +32,7 @@ STATES = ["connecting", "await_cer", "await_cea", "ready", "ready_idle_soon", "w
           "ready_after_unencodable",     # ready, and a message queued for it earlier could not be encoded
           "ready_backlog"]               # ready; a burst of requests is under way to a busy thread-limited application
 REACTIONS = ["prompt", "late", "never", "close", "dpa_then_close", "handshake_during_stop", "dpa_output_pending",
+             "crossing_dpr",          # the peer's own DPR crosses the node's; its DPA follows three seconds later
              "prompt_error_dpa",      # the DPA carries a non-success result (with the E bit): a DPA all the same
              "connect_fails_during_stop"]   # (state connecting, peer with two addresses) the pending connect fails in the window
 
@@ -179,6 +180,7 @@ class Case:
             self.pending_conn = {}
             dpa_at = {}
             reacted = set()
+            crossed, early = set(), set()
             newcomer = None
             newcomer_frames = 0
             stuck = 0
@@ -236,6 +238,16 @@ class Case:
                             sp.send(bytes(e))
                             reacted.add(i)
                             dpa_at[i] = it
+                        elif react == "crossing_dpr":
+                            # the peer is shutting down too: its own DPR crosses the node's; it confirms the node's
+                            # DPR three seconds later. The node answers the peer's DPR and goes on waiting for its DPA
+                            if i not in crossed:
+                                crossed.add(i)
+                                sp.send(M.dpr(f"peer{i + 1}.verif.example", self.REALM, hbh=8800 + i, e2e=8800 + i))
+                            elif h.now - dpr_seen[i][0] >= 3:
+                                sp.send(dpa)
+                                reacted.add(i)
+                                dpa_at[i] = it
                         elif react == "late" and h.now - dpr_seen[i][0] >= 3:
                             sp.send(dpa)
                             reacted.add(i)
@@ -261,6 +273,14 @@ class Case:
                             sp.send(dpa)
                             sp.close()
                             reacted.add(i)
+                for i in list(dpr_seen):
+                    # ... and not before: a connection whose DPA is still owed stays until the wait timeout
+                    if i not in reacted and spec["conns"][i][1] in ("late", "crossing_dpr") and not spec["force"] and \
+                            self.sp[i] is not None and not self.sp[i].closed and self.sp[i].node_sock.closed and \
+                            h.now - t0 < spec["wait_timeout"] - 1 and i not in early:
+                        early.add(i)
+                        self.witness("shutdown.connection_closed_before_its_dpa",
+                                     {"conn": i, "reaction": spec["conns"][i][1], "after_s": h.now - t0})
                 for i, j in list(dpa_at.items()):
                     # once the DPA has arrived (and nothing is left to flush) the connection is closed,
                     # not kept until the wait timeout
